@@ -154,7 +154,8 @@ theorem C15_decode_encode_scaled_rat (c : NumCodec Rat) (hc : c.RoundTrips)
     given one joined with the inherited flags and `REF`); (3) such a set survives the `"A | B"` string form.
     MISSING for the full clause: the sweep showing that every `Ingredient` / `Cookware` stored by the analysis carries
     either the event's modifiers or the result of `resolve_reference` on them (an invariant of `processEvent` over the
-    event stream of `pullEvents`); see notes/audit-C15.md. -/
+    event stream of `pullEvents`); see notes/audit-C15.md.  (That sweep is now done: `C15_parsed_recipe_mods_known` below
+    is the full clause.) -/
 theorem C15_modifier_flags_partial {α : Type} [Arith α] :
     (∀ (mtoks : List Tok) (pos : Nat) (s : BP α), (parseModifiers (α := α) mtoks pos s).1.flags.val.bits < 32) ∧
     (∀ (env : Env) (container : String) (inherit : Nat) (existing : List (Str × Modifiers)) (name : Str)
